@@ -654,10 +654,32 @@ def wake_loop(m: pf.Module, cls: ast.ClassDef, fname: str, value_src: str, cont_
     wl.head = heads[0]
     wl.names = [e.id for e in heads[0].targets[0].elts]  # type: ignore[attr-defined,union-attr]
     fits = [s for s in ast.walk(cands[0]) if isinstance(s, ast.If) and s is not cands[0] and mentions(s.test, value_src)]
+    if len(fits) == 0:
+        # the loop decides on something else than the total free capacity: recognise "compares the head with the released amount only"
+        others = [s for s in ast.walk(cands[0]) if isinstance(s, ast.If) and s is not cands[0] and any(mentions(s.test, n_) for n_ in wl.names)]
+        params = [a.arg for a in fn.args.args][1:]
+        for s in others:
+            for c in ast.walk(s.test):
+                if isinstance(c, ast.Compare):
+                    sides = [c.left] + list(c.comparators)
+                    rest = [x for x in sides if not any(mentions(x, n_) for n_ in wl.names)]
+                    if rest and all((pf.names_in(x) <= set(params)) and pf.names_in(x) for x in rest):
+                        raise FitNotOnValue(f'{m.rel}::{cls.name}.{fname}', pf.nsrc(s.test), s.lineno, value_src)
     if len(fits) != 1:
         raise AnalysisError(f'{m.rel}::{cls.name}.{fname}: expected one fit test on {value_src} in the wake loop, found {len(fits)}')
     wl.fit = fits[0]
     return wl
+
+
+class FitNotOnValue(AnalysisError):
+    """The wake loop compares the head waiter's weight only with the amount being released, not with the total free capacity."""
+
+    def __init__(self, where: str, test_src: str, lineno: int, value_src: str):
+        super().__init__(f'{where}: wake loop decides on `{test_src}`')
+        self.where = where
+        self.test_src = test_src
+        self.lineno = lineno
+        self.value_src = value_src
 
 
 def blocked(ctx, because: str, *rules: str) -> None:
